@@ -42,6 +42,16 @@ def Coherent : Kind → Bool
   | .constrained c _ => Coherent c
   | _ => true
 
+/-- the text `''` of a None value must not read back as a value with another text: a Boolean
+    for which `''` is a synonym must have `''` as the corresponding text (KF-C04-c outside) -/
+def CoherentNone : Kind → Bool
+  | .boolean tru fls trueSyn falseSyn =>
+    if [] == tru || trueSyn.contains [] then tru == []
+    else if [] == fls || falseSyn.contains [] then fls == []
+    else true
+  | .constrained c _ => CoherentNone c
+  | _ => true
+
 /-- custom `%0Ni` widths stay below the digit limit -/
 def WidthOK (T : Tables) : Kind → Bool
   | .integer _ w => decide (w ≤ T.maxDigits)
